@@ -54,7 +54,7 @@ DICT_OPS = ['d_setitem', 'd_setattr', 'd_delitem', 'd_pop', 'd_popitem', 'd_clea
             'd_update', 'd_setdefault', 'd_ior', 'd_copy']
 OBJ_OPS = ['o_setattr']
 ANY_OPS = ['rebind', 'rebind', 'rebind_fn', 'clone', 'clone_shallow', 'copy_copy', 'deepcopy',
-           'json_rt', 'pickle_rt', 'seal', 'unseal', 'accessor_on', 'accessor_off']
+           'json_rt', 'pickle_rt', 'seal', 'unseal', 'accessor_on', 'accessor_off', 'construct']
 SCOPES = {
     'notify_on_change': pg.notify_on_change,
     'as_sealed': pg.as_sealed,
@@ -354,6 +354,10 @@ def gen_op(rng, prop):
         a['notify_parents'] = rng.random() < 0.85
         a['skip_notification'] = rng.choice([None, None, None, True, False])
         a['reject_at'] = rng.randint(0, 3) if rng.random() < 0.15 else None
+    if k == 'construct':
+        a['v'] = gen_value_arg(rng, prop)
+        a['shape'] = rng.choice(['obj_twice', 'obj_nested', 'obj_pos', 'dict_twice', 'list_twice',
+                                 'obj_child'])
     if k == 'rebind_fn':
         a['what'] = rng.choice(['inc_ints', 'upper_strs', 'noop'])
     if k in ('dna_meta', 'dna_user'):
@@ -979,6 +983,27 @@ def op_rebind_fn(f, t, a, out):
             return v.upper()
         return v
     t.rebind(fn, raise_on_no_change=False)
+
+
+def op_construct(f, t, a, out):
+    """A new root built by a constructor that is handed the same value for
+    several slots (directly and inside plain containers)."""
+    x = _v(f, a)
+    shape = a['shape']
+    if shape == 'obj_twice':
+        r = values.Rec(v=x, w=[x])
+    elif shape == 'obj_nested':
+        r = values.Rec(v=[x, {'k': x}], w=[x, 1])
+    elif shape == 'obj_pos':
+        r = values.Rec(x, [x, x])
+    elif shape == 'dict_twice':
+        r = pg.Dict(a=x, b=x, c=[x])
+    elif shape == 'list_twice':
+        r = pg.List([x, x, {'k': x}])
+    else:
+        r = values.Rec2(v=x, child=values.Rec(v=x), box={'p': x})
+    out.new_roots.append(r)
+    return r
 
 
 def op_clone(f, t, a, out):
@@ -1730,6 +1755,9 @@ CANARIES_BY_PROP = {
         'iadd_bypasses': _canary(_L, 'List', '__iadd__', 'self.extend(other)',
                                  'list.extend(self, other)'),
         'reverse_no_sync': _canary(_L, 'List', 'reverse', 'self._sync_children_paths()', 'pass'),
+        'init_repeated_arg_stored_twice': _canary(
+            'pyglove.core.symbolic.object', 'Object', '__init__',
+            '_copy_repeated_symbolic_args(field_args),', 'field_args,'),
     },
     'C02': {
         'pop_wrong_negative_index': _canary(_L, 'List', 'pop',
